@@ -328,6 +328,67 @@ impl MSink {
     }
 
     // ----------------------------------------------------------------------------------------
+    // "scripts": DOM mutations between parser steps, as a page script could perform them on nodes
+    // it can reach from the document
+
+    /// ids of element nodes currently connected to the document (tree order)
+    pub fn attached_elements(&self) -> Vec<usize> {
+        let i = self.inner.borrow();
+        let mut out = vec![];
+        let mut stack: Vec<usize> = i.nodes[0].children.iter().rev().copied().collect();
+        while let Some(x) = stack.pop() {
+            if matches!(i.nodes[x].kind, Kind::Element { .. }) {
+                out.push(x);
+            }
+            for &c in i.nodes[x].children.iter().rev() {
+                stack.push(c);
+            }
+        }
+        out
+    }
+
+    /// node.remove()
+    pub fn script_remove(&self, id: usize) {
+        self.detach(id);
+    }
+
+    /// new_parent.appendChild(node); refused (false) if it would create a cycle
+    pub fn script_move(&self, id: usize, new_parent: usize) -> bool {
+        if id == new_parent || self.is_inclusive_ancestor(id, new_parent) || !self.can_have_children(new_parent) {
+            return false;
+        }
+        self.detach(id);
+        let mut i = self.inner.borrow_mut();
+        i.nodes[id].parent = Some(new_parent);
+        i.nodes[new_parent].children.push(id);
+        true
+    }
+
+    /// A few random script actions, deterministic in (seed, the current shape of the attached tree).
+    pub fn run_script(&self, seed: u64) -> u32 {
+        let mut rng = crate::prng::Rng::new(seed);
+        let mut done = 0;
+        for _ in 0..rng.range(0, 2) {
+            let elems = self.attached_elements();
+            // never touch the root element itself
+            if elems.len() < 2 {
+                break;
+            }
+            let victim = elems[1 + rng.below(elems.len() - 1)];
+            if rng.chance(1, 2) {
+                self.script_remove(victim);
+                done += 1;
+            } else {
+                let target = elems[rng.below(elems.len())];
+                if self.script_move(victim, target) {
+                    done += 1;
+                }
+            }
+        }
+        done
+    }
+
+    // ----------------------------------------------------------------------------------------
     // export
 
     pub fn to_tnode(&self, id: usize) -> TNode {
